@@ -245,7 +245,7 @@ func runC02(c *Ctx) {
 }
 
 func runC19(c *Ctx) {
-	c.res.Rule = "scripted readers failing (error or EOF) at every (call index x byte offset 0..32) after 0..3 rejected candidates, for key generation and signing; a Read that returns bytes TOGETHER with an error in the middle of a draw, followed by good data; short reads without error (1 byte at a time, 31+1, zero-byte reads followed by data); nil reader; class = (operation, rejected candidates before the failure, offset bucket, failure kind)"
+	c.res.Rule = "scripted readers failing (error or EOF) at every (call index x byte offset 0..32) after 0..3 rejected candidates, for key generation and signing; the same failures during the redraw that follows a first nonce refused by each late rule (r=0, r+k=n, s=0; digest solved for that nonce); a Read that returns bytes TOGETHER with an error in the middle of a draw, followed by good data; short reads without error (1 byte at a time, 31+1, zero-byte reads followed by data); nil reader; class = (operation, rejected candidates before the failure, offset bucket, failure kind)"
 	kp := randKey(c)
 	e := c.rng.Bytes(32)
 	bad := [][]byte{be32(curveN), make([]byte, 32), be32(new(big.Int).Sub(curveN, big.NewInt(1)))}
@@ -334,6 +334,44 @@ func runC19(c *Ctx) {
 			cl := fmt.Sprintf("%s/shortreads/%v", op, pat)
 			c.Case("sm2.reader", cl, false, req)
 			c.Check3("sm2.reader", cl, req, sreq, impl)
+		}
+	}
+	// the source fails during the REDRAW that follows a candidate refused by a late rule (r = 0, r + k = n, s = 0;
+	// digest solved for the first nonce): a retry loop that does not look at the redraw's error signs with the
+	// half-overwritten nonce (seeded C19-d)
+	// (offset 0 last: a signer that spins on an empty redraw must not hide the half-filled-nonce cases behind a hang)
+	var retryOffs []int
+	for off := step; off <= 32; off += step {
+		retryOffs = append(retryOffs, off)
+	}
+	retryOffs = append(retryOffs, 0)
+	for _, rule := range []string{"r=0", "r+k=n", "s=0"} {
+		for _, off := range retryOffs {
+			for _, fk := range []string{"fail", "eof", "data+err"} {
+				if fk == "data+err" && (off == 0 || off == 32) {
+					continue
+				}
+				kb, eR := craftReject(c, rule, kp.d)
+				items := []scriptItem{{'d', be32(kb)}}
+				good := be32(randK(c))
+				if fk == "data+err" {
+					items = append(items, scriptItem{'e', good[:off]}, scriptItem{'d', append(append([]byte(nil), good[off:]...), be32(randK(c))...)})
+				} else if off > 0 {
+					items = append(items, scriptItem{'d', good[:off]})
+				}
+				if fk == "fail" {
+					items = append(items, scriptItem{'f', nil}, scriptItem{'d', good})
+				}
+				impl := implSignHashed(items, kp.priv, eR)
+				req := fmt.Sprintf("sm2.sign %x %x %s", kp.priv, eR, scriptString(items))
+				sreq := fmt.Sprintf("sm2.sign.spec %x %x %s", kp.priv, eR, scriptString(items))
+				cl := fmt.Sprintf("sign/retry[%s]/off%d/%s", rule, bucket(off), fk)
+				if off == 32 && fk == "eof" {
+					cl += "/complete"
+				}
+				c.Case("sm2.reader", cl, false, req)
+				c.Check3("sm2.reader", cl, req, sreq, impl)
+			}
 		}
 	}
 	impl := implGenKey(nil, true)
